@@ -19,7 +19,7 @@ import (
 
 // Op is one step of a history.
 type Op struct {
-	Kind string `json:"kind"` // start | advance | head | reorg | fail
+	Kind string `json:"kind"` // start | advance | head | reorg | fail | hold | release
 	// start: (re)construct the controller at the current clock position
 	Waited bool `json:"waited,omitempty"`
 	// advance: to the start of slot (current + Slots) + OffsetMs
@@ -30,6 +30,7 @@ type Op struct {
 	Back  uint64 `json:"back,omitempty"`
 	Reorg string `json:"reorg,omitempty"`
 	// fail: the next duty request of this kind (att | prop | sync) fails
+	// hold: the node becomes slow for this kind: requests wait until "release" (or a restart)
 	FailKind string `json:"fail_kind,omitempty"`
 }
 
@@ -225,8 +226,15 @@ func genCase(t *rapid.T) Case {
 	slot, off := c.StartSlot, c.StartOffsetMs
 	lastSlot := c.StartSlot + maxEpochsPerHistory*p.SlotsPerEpoch - 1
 	nOps := rapid.IntRange(3, 26).Draw(t, "nOps")
+	held := 0
 	for i := 0; i < nOps; i++ {
-		kind := rapid.SampledFrom([]string{"advance", "advance", "advance", "advance", "advance", "head", "head", "head", "headReorg", "headReorg", "headLate", "start", "reorg", "fail"}).Draw(t, "op")
+		kind := rapid.SampledFrom([]string{"advance", "advance", "advance", "advance", "advance", "head", "head", "head", "headReorg", "headReorg", "headLate", "start", "reorg", "fail", "slow"}).Draw(t, "op")
+		if held > 0 {
+			held--
+			if held == 0 {
+				c.Ops = append(c.Ops, Op{Kind: "release"})
+			}
+		}
 		epoch := slot / p.SlotsPerEpoch
 		switch kind {
 		case "advance":
@@ -264,9 +272,20 @@ func genCase(t *rapid.T) Case {
 			}
 		case "start":
 			c.Ops = append(c.Ops, Op{Kind: "start"})
+		case "slow":
+			// the node is slow for one kind of duties during the next 1-3 ops (typically a start, a head
+			// event or an epoch tick, then an advance over a slot or epoch boundary), then answers
+			if held == 0 {
+				c.Ops = append(c.Ops, Op{Kind: "hold", FailKind: rapid.SampledFrom([]string{"att", "att", "prop", "sync"}).Draw(t, "slowKind")})
+				held = rapid.IntRange(2, 4).Draw(t, "slowFor")
+			}
 		case "fail":
 			c.Ops = append(c.Ops, Op{Kind: "fail", FailKind: rapid.SampledFrom([]string{"att", "prop", "sync"}).Draw(t, "failKind")})
 		}
+	}
+
+	if held > 0 {
+		c.Ops = append(c.Ops, Op{Kind: "release"})
 	}
 
 	// duty tables: one per epoch (period) and version the history can reach
@@ -391,6 +410,11 @@ func run(c *Case) result {
 			}
 		case "fail":
 			w.Chain.FailNext(op.FailKind, 1)
+		case "hold":
+			w.Node.Hold(op.FailKind)
+			j.st.slowNode = true
+		case "release":
+			err = w.ReleaseHeld("")
 		default:
 			err = fmt.Errorf("harness: unknown op %q", op.Kind)
 		}
@@ -421,6 +445,8 @@ func check(t ev.TB, c *Case) {
 	add(st.currentSlotReplaced > 0, "reorg-replaced-not-yet-run-job-of-current-slot")
 	add(st.genesisStart, "start-at-genesis-having-waited")
 	add(st.providerErrors > 0, "provider-error")
+	add(st.slowNode, "slow-node")
+	add(st.straddled > 0, "duty-request-answered-in-a-later-slot")
 	add(st.lateHeadRootChange > 0, "late-head-event-with-root-change")
 	add(st.crossEpochLate > 0, "late-head-event-of-the-previous-epoch")
 	add(st.syncMessages > 0, "sync-messages-sent")
